@@ -116,7 +116,12 @@ def c10(sc, tier, seed):
                             rule='TLC enumerates every program [step] WATCH a [step] MULTI PING [step by the other connection] EXEC with exactly one free position filled by: every data command of the emulator aimed at the watched key (all types; in-place and replacing writes, reads, failing writes), issued by the watching or by the other connection, FLUSHDB/FLUSHALL, or the deadline passing (300 ms of real time) - from 17 initial states (watched key missing / string / list / hash / set / with TTL); WatchIff (EXEC replies nil iff the watched key was modified since WATCH) is checked by TLC on the ideal reading; every program is replayed on two real connections.')
 
 
-CHECKS = {'C02': c02, 'C10': c10, 'C09': c09, 'C07': c07, 'C06': c06, 'C03': c03, 'C04': c04, 'C05': c05}
+def c14(sc, tier, seed):
+    return transition_check(sc, tier, seed, 'C14', ['MC_multi'], walks=['MC_multi_walk'], quick_n=22000, walk_n=(400, 4000),
+                            rule='TLC enumerates all 21952 programs of length 3 of two connections over {SELECT 0/1/15/16/-1, FLUSHDB, FLUSHALL, DBSIZE, SET/GET of a key name that holds different values in databases 0 and 1, KEYS *, CLIENT SETNAME/GETNAME, HELLO 3}, checks SessionIsolation, NamespaceIsolation and FlushGlobal on the ideal reading, and replays every program on real connections (replies, all databases after every step, and finally each connection\'s selected db / protocol / name / MULTI state); plus random walks of depth 8 of three connections (also HELLO 2/4, MULTI/EXEC, invalid names).')
+
+
+CHECKS = {'C02': c02, 'C14': c14, 'C10': c10, 'C09': c09, 'C07': c07, 'C06': c06, 'C03': c03, 'C04': c04, 'C05': c05}
 
 
 def replay_path(path):
